@@ -102,6 +102,9 @@ def task_accept(task):
             free.discard(n)
             if free:
                 gr["symbolic"] = sorted(str(x) for x in free)
+                if all(str(x) in res["abstracted"] for x in free):
+                    # symbolic only in the probabilities of abstracted conditions: values as expressions in them
+                    gr["values_sym"] = [str(sp.sympify(sol).subs(n, i)) for i in range(nvals)]
             else:
                 gr["values"] = [row[0] for row in numeric_values([sol], n, {}, nvals)]
         except BaseException as e:  # noqa
